@@ -11,6 +11,7 @@ REPLAYS = os.path.join(HERE, "replays")
 KF_FILE = os.path.join(HERE, "known_findings.json")
 KANI_FLAGS = ["--no-default-features", "-Z", "stubbing", "-Z", "unstable-options"]
 
+HEAVY_JOBS = int(os.environ.get("VERIF_HEAVY_JOBS", "5"))
 QUICK_TIMEOUT = int(os.environ.get("VERIF_QUICK_HARNESS_TIMEOUT", "720"))
 THOROUGH_TIMEOUT = int(os.environ.get("VERIF_THOROUGH_HARNESS_TIMEOUT", "2700"))
 
@@ -54,11 +55,12 @@ def discover():
                     if "=" in tok:
                         k, v = tok.split("=", 1)
                         meta[k] = (meta[k] + "; " + v) if k in ("funcs", "sym", "bounds", "assumes") and k in meta else v
-            elif s.startswith("#[kani::proof"):
+            elif line.startswith("#[kani::proof"):  # column 0 only: not the one inside a harness macro
                 in_proof = True
-            elif s.startswith("#[kani::unwind("):
-                unwind = int(re.findall(r"\d+", s)[0])
-            elif s.startswith("#[kani::stub("):
+            elif line.startswith("#[kani::unwind("):
+                d = re.findall(r"\d+", s)
+                unwind = int(d[0]) if d else None
+            elif line.startswith("#[kani::stub("):
                 m = re.match(r"#\[kani::stub\(([^,]+),", s)
                 if m:
                     stubs.append(m.group(1).strip())
@@ -381,11 +383,15 @@ def run_property(prop, tier, only=None, keep=False, seed=0):
         heavy = {k: [h for h in hs if h.kind == k and h.heavy] for k in kinds}
         n_groups = sum(1 for k in kinds if light[k]) + sum(1 for k in kinds if heavy[k])
         for k in kinds:
+            # heavy harnesses (L3c coroutines: 2-13 GB each) run at most HEAVY_JOBS at a time
+            n_heavy = sum(len(heavy[x]) for x in kinds)
+            heavy_jobs = min(HEAVY_JOBS, n_heavy)
+            light_jobs = max(2, total_jobs - heavy_jobs)
             if light[k]:
-                j = max(1, min(len(light[k]), total_jobs // max(1, len(kinds))))
+                j = max(1, min(len(light[k]), light_jobs // max(1, len([x for x in kinds if light[x]]))))
                 groups.append(GroupRun(k, light[k], scratch, j, per_to, mem_kb))
             if heavy[k]:
-                groups.append(GroupRun(k, heavy[k], scratch, min(len(heavy[k]), 3), per_to, mem_kb, tag="-heavy"))
+                groups.append(GroupRun(k, heavy[k], scratch, max(1, min(len(heavy[k]), heavy_jobs // max(1, len([x for x in kinds if heavy[x]])))), per_to, mem_kb, tag="-heavy"))
         for g in groups:
             g.start()
         budget = per_to * 3 + 600
